@@ -57,6 +57,20 @@ def respond (line : String) : String :=
     match dec t, dec b with
     | some t, some b => enc (Paths.relpathLex t b)
     | _, _ => "bad-op"
+  | ["relpath-full", cwd, t, b, ct, cb] =>
+    -- ct / cb: canonical form of the directory part of (absolutised) t / base, `!` when it does not exist
+    match dec cwd, dec t, dec b with
+    | some cwd, some t, some b =>
+      let tabs := if Paths.rooted t then t else Paths.pushPath cwd t
+      let dn (p : List Char) : List Char := match Paths.splitLast p with
+        | some (d, _) => d
+        | none => []
+      let canon : List Char → Option (List Char) := fun d =>
+        if d = dn tabs then (if ct = "!" then none else dec ct)
+        else if d = dn b then (if cb = "!" then none else dec cb)
+        else none
+      enc (Paths.relpath canon cwd t b)
+    | _, _, _ => "bad-op"
   | ["dofiles", p] =>
     match dec p with
     | some p =>
